@@ -285,3 +285,68 @@ pub proof fn lemma_linked_tokens(w: World)
         if is_bound(w, x) { let i = choose|i: int| 0 <= i < bcount(w) && tok_at(w, i) == x; assert(bound_list(w)[i] == x); }
     }
 }
+
+// ---- bind_tokens = the batch appended to the list ----
+pub proof fn lemma_push_all_toks(w: World, c0: int, ts: Seq<Address>, n: int)
+    requires
+        c0 == bcount(w), 0 <= n <= ts.len(), c0 + n <= MAX_TOKENS,
+        forall|b: u32| (#[trigger] bkt(w, b)).len() == want_len(c0, b as int),
+    ensures
+        forall|i: int| 0 <= i < c0 + n ==> #[trigger] tok_at(push_all(w, c0, ts, n), i) == (if i < c0 { tok_at(w, i) } else { ts[i - c0] }),
+    decreases n
+{
+    if n > 0 {
+        let wp = push_all(w, c0, ts, n - 1);
+        let wn = push_all(w, c0, ts, n);
+        lemma_push_all_toks(w, c0, ts, n - 1);
+        lemma_push_all_view(w, c0, ts, n - 1);
+        lemma_push_tok_pw(wp, c0 + n - 1, ts[n - 1]);
+        assert forall|i: int| 0 <= i < c0 + n implies #[trigger] tok_at(wn, i) == (if i < c0 { tok_at(w, i) } else { ts[i - c0] }) by {
+            let b = (i / 100) as u32;
+            assert(bkt(wp, b).len() == want_len(c0 + n - 1, b as int));
+            assert(bucket_opt(wn, b) == (if b == (c0 + n - 1) / 100 { Some(bkt(wp, b).push(ts[n - 1])) } else { bucket_opt(wp, b) }));
+            if i < c0 + n - 1 { assert(tok_at(wp, i) == (if i < c0 { tok_at(w, i) } else { ts[i - c0] })); }
+        }
+    }
+}
+pub proof fn lemma_bind_many(w: World, ts: Seq<Address>)
+    requires inv_tb(w), bind_many_guard(w, ts),
+    ensures
+        //@@ C20:binder.lemma.bind_tokens_is_batch_insert
+        inv_tb(bind_many_post(w, ts)),
+        forall|k: int| 0 <= k < ts.len() ==> !is_bound(w, #[trigger] ts[k]),
+        bcount(bind_many_post(w, ts)) == bcount(w) + ts.len() && bcount(bind_many_post(w, ts)) <= MAX_TOKENS,
+        forall|x: Address| #[trigger] is_bound(bind_many_post(w, ts), x) == (is_bound(w, x) || ts.contains(x)),
+        bound_list(bind_many_post(w, ts)) =~= bound_list(w) + ts,
+{
+    let c0 = bcount(w) as int; let n = ts.len() as int;
+    let wn = push_all(w, c0, ts, n);
+    let w2 = bind_many_post(w, ts);
+    lemma_push_all_view(w, c0, ts, n);
+    lemma_push_all_toks(w, c0, ts, n);
+    lemma_linked_tokens(w);
+    assert(bcount(w2) == c0 + n && (forall|b: u32| #[trigger] bucket_opt(w2, b) == bucket_opt(wn, b))) by { broadcast use sdk_store; }
+    assert forall|b: u32| #[trigger] bkt(w2, b) == bkt(wn, b) by { assert(bucket_opt(w2, b) == bucket_opt(wn, b)); }
+    assert forall|i: int| #[trigger] tok_at(w2, i) == tok_at(wn, i) by { assert(bkt(w2, (i / 100) as u32) == bkt(wn, (i / 100) as u32)); }
+    assert forall|k: int| 0 <= k < ts.len() implies !is_bound(w, #[trigger] ts[k]) by {
+        assert(!concat_buckets(w, nbuckets(w)).contains(ts[k]));
+        assert(bound_list(w).contains(ts[k]) <==> is_bound(w, ts[k]));
+    }
+    assert forall|b: u32| (#[trigger] bkt(w2, b)).len() == want_len(bcount(w2) as int, b as int) by { assert(bkt(w2, b) == bkt(wn, b)); }
+    assert forall|i: int| 0 <= i < c0 + n implies #[trigger] tok_at(w2, i) == (if i < c0 { tok_at(w, i) } else { ts[i - c0] }) by {
+        assert(tok_at(w2, i) == tok_at(wn, i));
+    }
+    assert forall|i: int, j: int| 0 <= i < j < bcount(w2) implies #[trigger] tok_at(w2, i) != #[trigger] tok_at(w2, j) by {
+        if j < c0 { assert(tok_at(w, i) != tok_at(w, j)); }
+        else if i >= c0 { assert(ts[i - c0] != ts[j - c0]); }
+        else { assert(!is_bound(w, ts[j - c0])); assert(tok_at(w, i) != ts[j - c0]); }
+    }
+    assert forall|x: Address| #[trigger] is_bound(w2, x) == (is_bound(w, x) || ts.contains(x)) by {
+        if is_bound(w, x) { let i = choose|i: int| 0 <= i < bcount(w) && tok_at(w, i) == x; assert(tok_at(w2, i) == x); }
+        if ts.contains(x) { let k = choose|k: int| 0 <= k < ts.len() && ts[k] == x; assert(tok_at(w2, c0 + k) == x); }
+        if is_bound(w2, x) {
+            let i = choose|i: int| 0 <= i < bcount(w2) && tok_at(w2, i) == x;
+            if i < c0 { assert(tok_at(w, i) == x); } else { assert(ts[i - c0] == x); }
+        }
+    }
+}
